@@ -54,12 +54,7 @@ def three_way(chk, impl_g, model, protos, ok, rng, engines):
         for e in engines:
             lines.append(case_line('m%d.%s' % (k, e), 'c05', e, 'callee%d' % k, G.c05_mir(p), G.vals_bytes(p, vals),
                                    G.ret_bytes_n(p, rets)))
-    rc, out, err = vlib.run_lines(impl_g, lines, timeout=1800)
-    rows = {}
-    for l in out:
-        if l.strip():
-            r = G.parse_impl(l)
-            rows.setdefault(r['id'], r)
+    rows, err = G.run_harness(vlib, impl_g, lines)
     mlines = [G.model_line('g%d' % k, p, vals, rets, VALS_ADDR) for k, p, vals, rets in meta]
     rc2, mout, merr = vlib.run_lines(model, mlines, timeout=600)
     if rc2 != 0 or len(mout) != len(mlines):
@@ -125,12 +120,7 @@ def run_cases(impl, model, cases):
         lines.append(case_line('c%d' % i, 'c05', c['engine'], c.get('target', 'probe'), G.c05_mir(protos),
                                G.session_vals(protos, [x['vals'] for x in c['calls']]),
                                G.ret_bytes_n(protos[0], c['rets'])))
-    rc, out, err = vlib.run_lines(impl, lines, timeout=1800)
-    rows = {}
-    for l in out:
-        if l.strip():
-            r = G.parse_impl(l)
-            rows.setdefault(r['id'], r)
+    rows, err = G.run_harness(vlib, impl, lines)
     mlines = []
     for i, c in enumerate(cases):
         for k, x in enumerate(c['calls']):
